@@ -13,6 +13,7 @@ import (
 	"sync"
 
 	"github.com/google/pprof/internal/graph"
+	"github.com/google/pprof/internal/measurement"
 	"github.com/google/pprof/internal/report"
 	"github.com/google/pprof/profile"
 )
@@ -604,6 +605,39 @@ func c04CLICheck(c *Ctx, cs *c04Case, res cliResult) {
 				w.str(k)
 			}
 		}
+		// The Lean model of addLabelNodes takes the label VALUES as strings. The documented pseudo-frame
+		// name (tagroot.go formatLabelValues) is: the string values of the key, then its numeric values
+		// rendered with their unit (measurement.ScaledLabel to the output unit, default "minimum"; plain
+		// numbers when the key has no units), comma-joined. Rendering numbers is external to the model
+		// (like filepath.Clean): the harness appends the rendered numeric values to the string values of
+		// every tag key before it hands the profile to the model.
+		tagKeys := map[string]bool{}
+		for _, k := range strings.Split(cs.TagRoot+","+cs.TagLeaf, ",") {
+			if k != "" {
+				tagKeys[k] = true
+			}
+		}
+		for _, s := range p0.Sample {
+			for k := range tagKeys {
+				nums, units := s.NumLabel[k], s.NumUnit[k]
+				if len(nums) == 0 || (len(units) != len(nums) && len(units) != 0) {
+					continue
+				}
+				if s.Label == nil {
+					s.Label = map[string][]string{}
+				}
+				vals := append([]string(nil), s.Label[k]...)
+				for i, n := range nums {
+					if len(units) != 0 {
+						vals = append(vals, measurement.ScaledLabel(n, units[i], "minimum"))
+					} else {
+						vals = append(vals, measurement.ScaledLabel(n, "", ""))
+					}
+				}
+				s.Label[k] = vals
+				c.Res.Hit("cli:tag-key-with-numeric-values")
+			}
+		}
 		reply := c.Drv.Ask("graph.tag " + w.String() + " " + Canon(p0))
 		if !strings.HasPrefix(reply, "ok ") {
 			c.Disagree("C04/cli/tag-model", "graph.tag: "+trunc(reply), "Lean model of addLabelNodes", cs)
@@ -800,6 +834,33 @@ func runC04(c *Ctx) {
 				st = "deep"
 			}
 			p := genC04Profile(rt, &c04GenOpts{Strategy: st, Labels: true})
+			numeric := i%3 != 2
+			if numeric {
+				// samples that carry STRING and NUMERIC values under the same key (several values, with
+				// and without units): samples sharing the string value but not the numbers are different
+				// pseudo frames
+				for si, s := range p.Sample {
+					if rt.Chance(55) {
+						k := rt.Pick([]string{"k", "req"})
+						nv := 1 + rt.Intn(2)
+						if s.NumLabel == nil {
+							s.NumLabel, s.NumUnit = map[string][]int64{}, map[string][]string{}
+						}
+						for j := 0; j < nv; j++ {
+							s.NumLabel[k] = append(s.NumLabel[k], int64(10*(1+rt.Intn(3))))
+						}
+						if (si+i)%2 == 0 {
+							for j := 0; j < nv; j++ {
+								s.NumUnit[k] = append(s.NumUnit[k], rt.Pick([]string{"bytes", "ms", "widgets"}))
+							}
+						}
+						if s.Label == nil && rt.Chance(60) {
+							s.Label = map[string][]string{k: {rt.Pick([]string{"a", "b"})}}
+						}
+					}
+				}
+				c.Res.Hit("tagstream:numeric-and-string-values")
+			}
 			if i%2 == 1 {
 				// sparse ids: the pseudo locations / functions must be numbered above the LARGEST id in
 				// use, not above the count (graph.CreateNodes keys its location table by Location.ID)
@@ -811,7 +872,13 @@ func runC04(c *Ctx) {
 				}
 				c.Res.Hit("tagstream:sparse-ids")
 			}
-			cs := &c04Case{Level: "cli", Profile: Canon(p), Format: tagFormats[i%len(tagFormats)],
+			format := tagFormats[i%len(tagFormats)]
+			if numeric {
+				// numeric labels also become tag nodelets / label lines in dot, callgrind and traces
+				// output (not this property's subject): use the formats that print entries only
+				format = []string{"text", "tree", "peek", "topproto"}[i%4]
+			}
+			cs := &c04Case{Level: "cli", Profile: Canon(p), Format: format,
 				Gran: rt.Pick([]string{"", "functions", "filefunctions", "files", "lines"}), NoInlines: rt.Chance(25),
 				Req: gReq{CallTree: rt.Chance(30), Mean: rt.Chance(20)}}
 			cs.TagRoot = rt.Pick([]string{"k", "req", "k,req", "req,k", "nokey,k", ""})
